@@ -8,7 +8,7 @@ from ..util import stream
 
 PROP = "C11"
 LEVEL = "exploration"
-N = {"quick": 8000, "thorough": 200000}
+N = {"quick": 50000, "thorough": 1000000}
 RULE = ("seeded instance (recirculation, irregular jobs, unused machine ids, flexible, zero durations; filters only "
         "with positive durations) x seeded set/order/feature-type subsets of the 7 built-in feature observers "
         "(created by name, enum or config) + composite x dispatch history; after every dispatch every feature "
